@@ -1,6 +1,7 @@
+// vf-driver: kind=cxx
 /* lmm_driver: executes a history of LMM operations on a real simgrid::kernel::lmm::System.
  *
- * usage: lmm_driver <history.json>
+ * usage: lmm_driver <history.json> | --serve <errfile>   (see forkserver.hpp)
  * history: {"solver":"maxmin|fairbottleneck|bmf","selective":bool,"debug":bool,"ops":[...]}  (see vf/lmm.py)
  * Prints one JSON line per operation: the driver's own shadow of what was requested, next to what SimGrid holds.
  * No oracle here: the driver only executes and reports.  Built with -fno-access-control.
@@ -10,6 +11,8 @@
 #include "src/kernel/lmm/System.hpp"
 #include "src/kernel/lmm/maxmin.hpp"
 #include "xbt/log.h"
+
+#include "forkserver.hpp"
 
 #include <climits>
 #include <cmath>
@@ -71,7 +74,7 @@ static double cb_apply(int kind, double cap, int n)
 static std::vector<SCnst> cnsts;
 static std::vector<SVar> vars;
 static lmm::System* sys = nullptr;
-static DummyModel* model;
+static DummyModel* model = nullptr;
 
 static json dump(bool solved, const json& fresh)
 {
@@ -168,21 +171,22 @@ static json solve_fresh(const std::string& solver)
   return out;
 }
 
-int main(int argc, char** argv)
+static int run_case(const std::string& text)
 {
-  if (argc < 2) {
-    fprintf(stderr, "usage: lmm_driver history.json\n");
-    return 64;
-  }
-  std::ifstream in(argv[1]);
-  json h = json::parse(in);
+  json h = json::parse(text);
   std::string solver = h.value("solver", "maxmin");
   bool selective     = h.value("selective", false);
   bool debug         = h.value("debug", false);
   bool want_fresh    = h.value("fresh", false);
-  if (debug) {
-    xbt_log_control_set("ker_lmm.thres:debug");
-  }
+  xbt_log_control_set(debug ? "ker_lmm.thres:debug" : "ker_lmm.thres:info");
+  // reset what the previous case of this process left (in-process server mode)
+  for (auto& sv : vars)
+    delete sv.act; // frees the variable too
+  vars.clear();
+  cnsts.clear();
+  delete model; // owns the system
+  model = nullptr;
+  sys   = nullptr;
   setvbuf(stdout, nullptr, _IOLBF, 0);
   sys   = lmm::System::build(solver, selective);
   if (sys == nullptr) {
@@ -315,6 +319,10 @@ int main(int argc, char** argv)
     printf("%s\n", line.dump().c_str());
   }
   printf("{\"done\":true}\n");
-  fflush(stdout);
-  _exit(0); // skip destructors: leaked variables are warned about, not our business here
+  return 0; // vf_main _exit()s: destructors are skipped (leaked variables are warned about, not our business here)
+}
+
+int main(int argc, char** argv)
+{
+  return vf_main(argc, argv, run_case, nullptr, true);
 }
